@@ -925,6 +925,14 @@ class CodeGen:
                 concrete_params.append(arg_bubble.value.type)
             bubble += arg_bubble
 
+        if name == ast.Ident('write') and abstract_params == (DataType.INT,):
+            # write_int builds its digits downwards starting in its argument
+            # slot; reserve room below the frame for the widest integer.
+            digits = len(str(1 << (8 * self.word_size - 1)))
+            self.checkpoints.update(
+                self.stack.static_size + max(0, digits - self.word_size)
+            )
+
         label = self.label_for_func(ConcreteSignature(name, tuple(concrete_params)))
         yield asm.Add(self.fp, asm.State(self.fp), asm.IntLiteral(-offset))
         yield from self.goto(label)
